@@ -29,7 +29,7 @@ func init() {
 			"F3m three hooks, the 6 mixed phase vectors x one policy for all; F3p three hooks of one phase, all 125 policy vectors; F3o three hooks of one phase, the 13 weak orders of weights (27 vectors thorough) x 4 (8) kind vectors x one policy for all; " +
 			"Fw2 two hooks of one phase, all 49 ordered weight pairs over {MinInt64,-2^62,-1,0,1,2^62,MaxInt64} x 4 kind vectors, clean cluster only; Fw3 three hooks of one phase, all 125 ordered weight triples over {MinInt64,-1,0,1,MaxInt64} x 8 kind vectors, clean cluster only, history cut after the first (thorough: second) operation; " +
 			"F2e (thorough) two hooks on all 64 pairs of single events) and every initial cluster (clean | one stale object per hook | all stale): " +
-			"BFS over histories install -> {upgrade -> {rollback -> U | U(thorough)} | U} with U = uninstall | uninstall --keep-history, every step with hooks on and (terminal) with hooks disabled; a failed upgrade is followed by rollback (which runs the hooks stored with the target revision against what the failed upgrade left behind); " +
+			"BFS over histories install -> {upgrade -> {rollback -> U | U(thorough)} | U} with U = uninstall | uninstall --keep-history, every step with hooks on and (terminal) with hooks disabled; a failed uninstall is followed by a second uninstall (the failed pre-delete hook must gate every attempt; after the resources are gone nothing may be touched); a failed upgrade is followed by rollback (which runs the hooks stored with the target revision against what the failed upgrade left behind); " +
 			"hook sets that do not run at install also get install -> upgrade -> upgrade -> rollback; thorough also uninstall after every failed step; install and upgrade also with --atomic + hooks disabled + the readiness wait failing (no hook request may appear in the automatic uninstall/rollback); " +
 			"every transition is the real action on a clone of the state, run fault-free and once per hook-create request (rejected 403) and per hook WatchUntilReady call (error) discovered from the fault-free run; " +
 			"the projection of the server's request log (effective POST/DELETE on hook objects, WatchUntilReady calls, block of release-resource mutations, readiness wait) must equal the trace of the reference generator. " +
@@ -47,7 +47,7 @@ func init() {
 			"reading used for a hook whose creation is refused: it never existed, so no policy deletion is expected for it; hooks of the same event that already succeeded are still covered by their hook-succeeded policy (ref.go: earlierSucceededCovered=true)",
 			"pre-X hooks precede the first mutation of a release resource and post-X hooks follow the last one and the readiness wait: taken as the definition of the lifecycle events",
 		},
-		RequiredFloors: []string{"order:weight-decides", "order:name-breaks-tie", "order:tie-against-kind-order", "order:weights-more-than-2^63-apart", "spelling:policy-list-with-blanks", "spelling:policy-not-first-decides", "spelling:event-list-with-blanks", "uninstall:keep-history-post-hook-failed",
+		RequiredFloors: []string{"order:weight-decides", "order:name-breaks-tie", "order:tie-against-kind-order", "order:weights-more-than-2^63-apart", "spelling:policy-list-with-blanks", "spelling:policy-not-first-decides", "spelling:event-list-with-blanks", "spelling:zero-padded-weight-decides", "uninstall:repeated-after-failed-pre-delete-hook", "uninstall:repeated-on-deleted-release", "uninstall:keep-history-post-hook-failed",
 			"rollback-after-failed-upgrade", "rollback-after-second-upgrade-failed", "rollback:leftover-of-failed-upgrade-deleted-first", "disabled:atomic-upgrade-undone", "disabled:atomic-install-undone", "stale:deleted-first", "stale:conflict", "policy:succeeded-delete", "policy:failed-delete",
 			"policy:succeeded-after-later-wait-failure", "policy:kept", "gate:pre-failed", "gate:post-failed", "gate:later-hook-skipped", "disabled", "fault:create-rejected", "fault:wait", "hook-in-both-phases",
 			"op:install", "op:upgrade", "op:rollback", "op:uninstall"},
@@ -316,6 +316,38 @@ func families(thorough bool) []hookSet {
 			}
 		}
 	}
+	// Fwr: the SPELLING of the weight annotation (hx.HookSpec.WeightRaw). The weight
+	// is a decimal integer: "010" is ten, "-010" minus ten, "08" eight, "+5" five;
+	// what is not a decimal integer ("0x10", " 7") counts as 0. All ordered pairs over
+	// 8 spellings x kinds {CJ,JC} and all ordered triples over {"-010","-9","9","010"},
+	// hooks of one phase; clean cluster; quick: first operation only.
+	rawW := []string{"-010", "-9", "08", "9", "010", "+5", "0x10", " 7"}
+	rawT := []string{"-010", "-9", "9", "010"}
+	mkr := func(name, kind string, ev []string, raw string) hx.HookSpec {
+		h := mk(name, kind, ev, decimalWeight(raw), nil)
+		h.WeightRaw = raw
+		return h
+	}
+	capWr := 1
+	if thorough {
+		capWr = 2
+	}
+	for _, p := range phases {
+		for _, a := range rawW {
+			for _, b := range rawW {
+				for k := 0; k < 2; k++ {
+					out = append(out, hookSet{Family: "Fwr", NoStale: true, DepthCap: capWr, Hooks: []hx.HookSpec{mkr("h1", kinds[k], phaseEvents(p), a), mkr("h2", kinds[1-k], phaseEvents(p), b)}})
+				}
+			}
+		}
+		for _, a := range rawT {
+			for _, b := range rawT {
+				for _, c := range rawT {
+					out = append(out, hookSet{Family: "Fwr", NoStale: true, DepthCap: capWr, Hooks: []hx.HookSpec{mkr("h1", "Job", phaseEvents(p), a), mkr("h2", "ConfigMap", phaseEvents(p), b), mkr("h3", "ConfigMap", phaseEvents(p), c)}})
+				}
+			}
+		}
+	}
 	// F2e (thorough): two hooks attached to single events (all 64 event pairs)
 	if thorough {
 		for _, e1 := range singleEvents {
@@ -399,10 +431,21 @@ func model(init string, hooks []hx.HookSpec, path []opspace.Step) (refResult, ma
 	}
 	var r refResult
 	failures := 0
+	deleted := false
 	for _, st := range path {
+		if deleted {
+			// an uninstall got past its pre-delete hooks: the release's resources are
+			// gone (and the record purged or marked uninstalled); a further uninstall
+			// has no lifecycle event to run hooks for and nothing to delete
+			r = refResult{Deleted: true}
+			continue
+		}
 		r = refOp(st.Op.Kind, hooks, st.Op.DisableHooks, toRefFault(st.Fault), present)
 		if r.Failed {
 			failures++
+		}
+		if st.Op.Kind == "uninstall" && !(r.Failed && r.Phase == "pre") {
+			deleted = true
 		}
 	}
 	return r, present, failures
